@@ -62,6 +62,6 @@ CLAIM = dict(
     text="The byte-position contracts of C05/C16 (which say 'byte k of memory = byte k of the little-endian value') are proved unchanged on "
          "CBMC's big-endian memory model for all 86 access functions and both byte-swap implementations: exactly one reversal of exactly the "
          "access width, none for 8-bit accesses; mutex-based rmw variants relative to the state at lock acquisition; translator float immediates.",
-    note="Trusted: CBMC's big-endian model as stand-in for real BE hardware, bswap builtin models, monitor reasoning. wasi.c marshalling on BE is not covered.",
+    note="Trusted: CBMC's big-endian model as stand-in for real BE hardware, bswap builtin models, monitor reasoning. Ten of the WASI result-layout obligations of C12/C15 (seek/tell, filestat, read/write counts, args, clocks) are re-run on the big-endian model; the remaining wasi.c entry points are not.",
     technique="CBMC code contracts on a big-endian memory model (dfcc assigns frames + byte-position postconditions)",
 )
